@@ -78,6 +78,10 @@ pub struct Case {
     /// the offspring were evaluated), 2: one that is better than everything; plus counters
     #[serde(default)]
     pub distractor: u8,
+    /// the offspring (bit 0) / parent (bit 1) population lives in a Vec with spare capacity (built by pushing into a
+    /// pre-sized buffer, or the truncated result of an earlier operator): capacity is not part of a population
+    #[serde(default)]
+    pub roomy: u8,
 }
 
 fn fine(c: &Case, idx: usize, o: Option<i8>) -> Option<f64> {
@@ -93,6 +97,16 @@ fn fine(c: &Case, idx: usize, o: Option<i8>) -> Option<f64> {
         }
     }
     Some(v)
+}
+
+/// The individuals in a Vec with `extra` spare capacity.
+fn roomy_vec(v: Vec<Individual<RealP>>, extra: usize) -> Vec<Individual<RealP>> {
+    if extra == 0 {
+        return v;
+    }
+    let mut out = Vec::with_capacity(v.len() + extra);
+    out.extend(v);
+    out
 }
 
 fn mkv(v: &V) -> Individual<RealP> {
@@ -131,7 +145,7 @@ impl Check for ReplCheck {
         "C12/replacement".into()
     }
     fn classes(&self) -> &'static [&'static str] {
-        &["both non-empty", "cross-population tie at the cut", "mu < total", "mu == 0", "mu > total", "duplicates by value", "unequal sizes", "via Replacement::replace", "+inf objective", "populations below", "distinct objective values within a few representable steps or f64::EPSILON of each other", "executed inside nested scopes", "best-so-far individual and counters present in the state", "the operator ran on other populations in the same state before"]
+        &["both non-empty", "cross-population tie at the cut", "mu < total", "mu == 0", "mu > total", "duplicates by value", "unequal sizes", "via Replacement::replace", "+inf objective", "populations below", "distinct objective values within a few representable steps or f64::EPSILON of each other", "executed inside nested scopes", "best-so-far individual and counters present in the state", "the operator ran on other populations in the same state before", "a population in a Vec with spare capacity"]
     }
     fn oracle(&self, c: &Case) -> Outcome {
         let mut cl = 0u64;
@@ -205,8 +219,12 @@ fn oracle(c: &Case, cl: &mut u64) -> Result<(), Failure> {
     let mut below_after: Option<Vec<Vec<V>>> = None;
     if c.direct {
         let mut rng = Random::new(c.seed);
-        let p: Vec<_> = pv.iter().map(mkv).collect();
-        let o: Vec<_> = ov.iter().map(mkv).collect();
+        let extra = pv.len() + ov.len() + 3;
+        let p: Vec<_> = roomy_vec(pv.iter().map(mkv).collect(), if c.roomy & 2 != 0 { extra } else { 0 });
+        let o: Vec<_> = roomy_vec(ov.iter().map(mkv).collect(), if c.roomy & 1 != 0 { extra } else { 0 });
+        if c.roomy & 3 != 0 {
+            *cl |= 1 << 14;
+        }
         let r = catch(|| match &c.op {
             Op::Merge => Replacement::<RealP>::replace(&Merge, p, o, &mut rng),
             Op::Generational(m) => Replacement::<RealP>::replace(&Generational::from_params(*m), p, o, &mut rng),
@@ -226,8 +244,12 @@ fn oracle(c: &Case, cl: &mut u64) -> Result<(), Failure> {
         for b in &c.below {
             ps.push(b.iter().map(mk).collect());
         }
-        ps.push(pv.iter().map(mkv).collect());
-        ps.push(ov.iter().map(mkv).collect());
+        let extra = pv.len() + ov.len() + 3;
+        ps.push(roomy_vec(pv.iter().map(mkv).collect(), if c.roomy & 2 != 0 { extra } else { 0 }));
+        ps.push(roomy_vec(ov.iter().map(mkv).collect(), if c.roomy & 1 != 0 { extra } else { 0 }));
+        if c.roomy & 3 != 0 {
+            *cl |= 1 << 14;
+        }
         state.insert(ps);
         state.insert(Random::new(c.seed));
         let comp: Box<dyn Component<RealP>> = match &c.op {
@@ -373,7 +395,7 @@ fn case_strategy() -> impl Strategy<Value = Case> {
             if matches!(op, Op::KeepBetterAtIndex) && equalise {
                 offspring.resize(parents.len(), (3, Some(1)));
             }
-            Case { op, below, parents, offspring, seed, direct, ulps, tiny, nest, prior, distractor }
+            Case { op, below, parents, offspring, seed, direct, ulps, tiny, nest, prior, distractor, roomy: (seed >> 7) as u8 % 8 }
         },
     )
 }
@@ -405,6 +427,7 @@ fn mpl_history_strategy() -> impl Strategy<Value = Case> {
             nest,
             prior: vec![(tag(&p0, 0), tag(&o0, 50))],
             distractor: 0,
+            roomy: 0,
         }
     })
 }
@@ -430,7 +453,7 @@ fn exhaustive() -> Vec<Case> {
         for o in &pops {
             for op in &ops {
                 for direct in [false, true] {
-                    out.push(Case { op: op.clone(), below: if direct { vec![] } else { vec![vec![(9, None)]] }, parents: p.clone(), offspring: o.clone(), seed: 7, direct, ulps: Vec::new(), tiny: false, nest: if direct { 0 } else { (p.len() + o.len()) as u8 % 3 }, prior: Vec::new(), distractor: if direct { 0 } else { (p.len() * 2 + o.len()) as u8 % 3 } });
+                    out.push(Case { op: op.clone(), below: if direct { vec![] } else { vec![vec![(9, None)]] }, parents: p.clone(), offspring: o.clone(), seed: 7, direct, ulps: Vec::new(), tiny: false, nest: if direct { 0 } else { (p.len() + o.len()) as u8 % 3 }, prior: Vec::new(), distractor: if direct { 0 } else { (p.len() * 2 + o.len()) as u8 % 3 }, roomy: (p.len() + 2 * o.len()) as u8 % 4 });
                 }
             }
         }
@@ -438,8 +461,80 @@ fn exhaustive() -> Vec<Case> {
     out
 }
 
+/// RandomReplacement keeps "mu random ones": over many seeds every individual of parents ++ offspring survives with the
+/// same frequency mu / total.
+#[derive(Clone, Debug, Serialize, Deserialize)]
+pub struct UniformCase {
+    pub parents: u8,
+    pub offspring: u8,
+    pub mu: u8,
+    pub seeds: u32,
+    pub base_seed: u64,
+}
+
+pub struct UniformCheck;
+
+impl Check for UniformCheck {
+    type Case = UniformCase;
+    fn name(&self) -> String {
+        "C12/random-replacement-uniformity".into()
+    }
+    fn classes(&self) -> &'static [&'static str] {
+        &["fewer than half survive", "more than half survive", "single survivor"]
+    }
+    fn oracle(&self, c: &UniformCase) -> Outcome {
+        let (np, no, mu) = (c.parents as usize, c.offspring as usize, c.mu as usize);
+        let total = np + no;
+        let mut cl = 0;
+        if 2 * mu < total {
+            cl |= 1;
+        } else {
+            cl |= 2;
+        }
+        if mu == 1 {
+            cl |= 4;
+        }
+        if mu == 0 || mu >= total {
+            return Outcome::new(false, cl, Ok(()));
+        }
+        let r = (|| -> Result<(), Failure> {
+            let op = RandomReplacement::from_params(mu as u32);
+            let mut counts = vec![0u32; total];
+            for s in 0..c.seeds {
+                let mut rng = Random::new(c.base_seed.wrapping_add(s as u64));
+                let p: Vec<Individual<RealP>> = (0..np).map(|k| mk(&(k as u16, Some(1)))).collect();
+                let o: Vec<Individual<RealP>> = (0..no).map(|k| mk(&((np + k) as u16, Some(1)))).collect();
+                let got = match catch(|| Replacement::<RealP>::replace(&op, p, o, &mut rng)) {
+                    Ok(Ok(v)) => v,
+                    r => fail!("C12 RandomReplacement errs on valid input", "{c:?}: {:?}", r.map(|x| x.is_ok())),
+                };
+                ensure_that!(got.len() == mu, "C12 RandomReplacement size", "{c:?}: {} survivors", got.len());
+                for i in &got {
+                    let k = i.solution()[0] as usize;
+                    ensure_that!(k < total, "C12 RandomReplacement result not drawn from parents and offspring", "{c:?}");
+                    counts[k] += 1;
+                }
+            }
+            let n = c.seeds as f64;
+            let p = mu as f64 / total as f64;
+            let band = 6.0 * (n * p * (1.0 - p)).sqrt() + 1.0;
+            for (k, cnt) in counts.iter().enumerate() {
+                ensure_that!(
+                    (*cnt as f64 - n * p).abs() <= band,
+                    "C12 RandomReplacement survivors are not a uniformly random subset",
+                    "{c:?}: over {} seeds the individual at position {k} of parents ++ offspring survived {cnt} times, expected {:.0} +- {band:.0} (mu / total = {p:.3}); counts {counts:?}",
+                    c.seeds,
+                    n * p
+                );
+            }
+            Ok(())
+        })();
+        Outcome::new(true, cl, r)
+    }
+}
+
 pub fn run_all(ctx: &mut Ctx, replay: Option<&Path>) {
-    ctx.rule("case = (operator, mu, populations below, parents, offspring, seed, via Component::execute or Replacement::replace) over tagged individuals with ties, duplicates by value, unevaluated and +inf objectives, objective values 1-2 representable steps apart and values of magnitude 1e-17; the component also executed inside 1-3 nested scopes while the population stack lives outside them, after earlier calls of the same operator on other populations in the same state (incl. a directed family: second MuPlusLambda call on survivors that got worse in place), and with a best-so-far individual / counters present in the state; oracle: stack height -1 and populations below untouched, result is a sub-multiset of parents (+) offspring, content per operator (Merge/Generational/DiscardOffspring exact, MuPlusLambda = min(mu,total) individuals whose objective multiset is the mu smallest, RandomReplacement size, KeepBetterAtIndex index-wise strictly better with parent on ties, Err on unequal sizes); non-trivial = both populations non-empty with mu < total and a parent/offspring tie at the cut, or duplicates by value; distinct by case");
+    ctx.rule("case = (operator, mu, populations below, parents, offspring, seed, via Component::execute or Replacement::replace) over tagged individuals with ties, duplicates by value, unevaluated and +inf objectives, objective values 1-2 representable steps apart and values of magnitude 1e-17; the component also executed inside 1-3 nested scopes while the population stack lives outside them, after earlier calls of the same operator on other populations in the same state (incl. a directed family: second MuPlusLambda call on survivors that got worse in place), and with a best-so-far individual / counters present in the state; oracle: stack height -1 and populations below untouched, result is a sub-multiset of parents (+) offspring, content per operator (Merge/Generational/DiscardOffspring exact, MuPlusLambda = min(mu,total) individuals whose objective multiset is the mu smallest, RandomReplacement size (and, in a separate frequency check over many seeds, every individual surviving with frequency mu/total within a 6-sigma band), KeepBetterAtIndex index-wise strictly better with parent on ties, Err on unequal sizes); non-trivial = both populations non-empty with mu < total and a parent/offspring tie at the cut, or duplicates by value; distinct by case");
     ctx.assume("MuPlusLambda and KeepBetterAtIndex get evaluated individuals only (every caller evaluates first)");
     let k = ReplCheck;
     if let Some(p) = replay {
@@ -449,5 +544,14 @@ pub fn run_all(ctx: &mut Ctx, replay: Option<&Path>) {
     ctx.regressions(&k);
     ctx.exhaustive(&k, "all parent x offspring populations of size <= 2 over 3 individuals (two tied) x {Merge, Discard, KeepBetter, MuPlusLambda/Random/Generational with mu in 0..=5} x {execute, replace}", exhaustive().into_iter());
     ctx.random(&k, case_strategy(), ctx.tier.pick(200_000, 1_000_000));
+    let u = UniformCheck;
+    ctx.regressions(&u);
+    let seeds = ctx.tier.pick(600, 3000);
+    let base = ctx.derive_seed("random-replacement");
+    ctx.exhaustive(
+        &u,
+        &format!("parents x offspring in {{(1,1),(2,2),(3,1),(1,5),(5,5),(4,12),(8,2)}} x every mu in 1..total, {seeds} seeds each"),
+        [(1u8, 1u8), (2, 2), (3, 1), (1, 5), (5, 5), (4, 12), (8, 2)].into_iter().flat_map(move |(a, b)| (1..a + b).map(move |mu| UniformCase { parents: a, offspring: b, mu, seeds, base_seed: base })),
+    );
     ctx.random(&k, mpl_history_strategy(), ctx.tier.pick(20_000, 100_000));
 }
